@@ -429,13 +429,13 @@ Section RecIntMG.
     Definition mr_subin := rm_subin p.
     Definition mr_neg := rm_neg p.
     Definition mr_inv (a : Z) : Z := mr_mul (inv_mod B a p) (g_r3 M).          (* inv_mod; mulin(r, _r3) *)
-    Definition mr_div (a b : Z) : Z := mr_mul (mr_inv b) a.                     (* mulin(inv(r,b), a) *)
+    Definition mr_div (a b : Z) : Z := mr_mul a (mr_inv b).                     (* Element ib; mul(r, a, inv(ib, b)) *)
     Definition mr_divin (r a : Z) : Z := mr_mul r (mr_inv a).
     Definition mr_axpy (a b c : Z) : Z := mr_add (mr_mul a b) c.
     Definition mr_axpyin (r a b : Z) : Z := mr_add r (mr_mul a b).
     Definition mr_maxpy (a b c : Z) : Z := mr_sub c (mr_mul a b).
     Definition mr_maxpyin (r a b : Z) : Z := mr_subin r (mr_mul a b).
-    Definition mr_axmy (a b c : Z) : Z := mr_subin (mr_mul a b) c.
+    Definition mr_axmy (a b c : Z) : Z := mr_sub (mr_mul a b) c.                (* Element ab; mul(ab, a, b); sub(r, ab, c) *)
     Definition mr_axmyin (r a b : Z) : Z := mr_sub (mr_mul a b) r.
     (* init<T> / init(Integer): reduce(r, Caster<Element>(|a|)); if (a<0) negin(r); to_mg(r) *)
     Definition mr_init (a : Z) : Z :=
